@@ -210,25 +210,9 @@ def to_naive_date (p : Parsed) : RP Date :=
        | .panic => .panic)
     | none => .ok (.ok vd.2)
 
-/-- `Parsed::to_naive_time` (never panics) -/
-def to_naive_time (p : Parsed) : PRes Time :=
-  match p.hour_div_12 with
-  | none => .error .notEnough
-  | some hd =>
-  if ¬ (0 ≤ hd ∧ hd ≤ 1) then .error .outOfRange else
-  match p.hour_mod_12 with
-  | none => .error .notEnough
-  | some hm =>
-  if ¬ (0 ≤ hm ∧ hm ≤ 11) then .error .outOfRange else
-  let hour := hd * 12 + hm
-  match p.minute with
-  | none => .error .notEnough
-  | some minute =>
-  if ¬ (0 ≤ minute ∧ minute ≤ 59) then .error .outOfRange else
-  let s := p.second.getD 0
-  if ¬ (0 ≤ s ∧ s ≤ 60) then .error .outOfRange else
-  let second := if s = 60 then 59 else s
-  let nano0 : Int := if s = 60 then 1000000000 else 0
+/-- the nanosecond part of `to_naive_time`: `nano += match self.nanosecond { … }`, then
+`NaiveTime::from_hms_nano_opt(hour, minute, second, nano).ok_or(OUT_OF_RANGE)` -/
+def time_tail (p : Parsed) (hour minute second nano0 : Int) : PRes Time :=
   match p.nanosecond with
   | some v =>
     if 0 ≤ v ∧ v ≤ 999999999 then
@@ -242,6 +226,29 @@ def to_naive_time (p : Parsed) : PRes Time :=
     match Time.from_hms_nano_opt hour minute second nano0 with
     | some t => .ok t
     | none => .error .outOfRange
+
+/-- `Parsed::to_naive_time` (never panics) -/
+def to_naive_time (p : Parsed) : PRes Time :=
+  match p.hour_div_12 with
+  | none => .error .notEnough
+  | some hd =>
+  if 0 ≤ hd ∧ hd ≤ 1 then
+    match p.hour_mod_12 with
+    | none => .error .notEnough
+    | some hm =>
+    if 0 ≤ hm ∧ hm ≤ 11 then
+      match p.minute with
+      | none => .error .notEnough
+      | some minute =>
+      if 0 ≤ minute ∧ minute ≤ 59 then
+        -- `match self.second.unwrap_or(0) { v @ 0..=59 => (v, 0), 60 => (59, 1_000_000_000), _ => … }`
+        if 0 ≤ p.second.getD 0 ∧ p.second.getD 0 ≤ 60 then
+          time_tail p (hd * 12 + hm) minute (if p.second.getD 0 = 60 then 59 else p.second.getD 0)
+            (if p.second.getD 0 = 60 then 1000000000 else 0)
+        else .error .outOfRange
+      else .error .outOfRange
+    else .error .outOfRange
+  else .error .outOfRange
 
 /-- `matches!(x, Err(kind))` -/
 def errIs {α} (x : PRes α) (k : PErr) : Bool :=
